@@ -469,7 +469,7 @@ func (in *interp) binary(op string, l, r val) val {
 			}
 			return vStr(s)
 		}
-	case "<", "<=", ">", ">=", "==", "!=":
+	case "<", "<=", ">", ">=", "==", "!=", "<=>":
 		var c int
 		switch {
 		case l.k == kInt && r.k == kInt:
@@ -498,6 +498,8 @@ func (in *interp) binary(op string, l, r val) val {
 			return vBool(c == 0)
 		case "!=":
 			return vBool(c != 0)
+		case "<=>":
+			return vInt(int64(c))
 		}
 	}
 	uncon("%s on %s and %s", op, l.kindName(), r.kindName())
